@@ -1,14 +1,1100 @@
-//! C16 — not built yet.
-use crate::engine::{Ctx, Property};
+//! C16 — TrueType outlines: contour and composite semantics.
+//!
+//! Forward construction: glyph model → `fontgen::glyf` (my encoder, random legal compaction) →
+//! bytes → allsorts `LocaTable`/`GlyfTable` → `OutlineBuilder::visit` with a recording sink →
+//! compared with `refmodel::glyf::outline_of(model)` (the TrueType/OpenType rules). The expected
+//! path never comes from decoding my own bytes; my reader is cross-checked against the model on
+//! every case and against allsorts on the repository's fixture fonts.
+
+use crate::engine::util::pick;
+use crate::engine::{fixtures, CaseResult, Ctx, Fail, Property, Rec};
+use crate::fontgen::glyf::{build_glyf_loca, encode_composite, encode_simple, Encoding, Form, Layout, SimpleStats};
+use crate::fontgen::sfnt::find_table;
+use crate::refmodel::glyf::{
+    composite_depth, first_difference, flag, outline_of, read_glyf_table, render, same_geometry, Anchor, Cmd,
+    Component, CompositeGlyph, Deviations, Glyph, Outline, PathError, PathOptions, PointMatching, Pt, SimpleGlyph,
+    Transform,
+};
+use allsorts::binary::read::ReadScope;
+use allsorts::outline::{OutlineBuilder, OutlineSink};
+use allsorts::pathfinder_geometry::line_segment::LineSegment2F;
+use allsorts::pathfinder_geometry::vector::Vector2F;
+use allsorts::tables::glyf::GlyfTable;
+use allsorts::tables::loca::LocaTable;
+use allsorts::tables::IndexToLocFormat;
+use proptest::prelude::*;
+use std::collections::BTreeSet;
 
 pub struct C16;
+
+/// allsorts' documented nesting limit (`COMPOSITE_GLYPH_RECURSION_LIMIT`, "the same value as
+/// Harfbuzz"): the requested glyph is depth 0; a glyph reached at depth > 6 is an error.
+const DEPTH_LIMIT: u32 = 6;
+
+const SIG_TRANSPOSED: &str = "C16:composite-2x2-transposed";
+const SIG_DROPPED: &str = "C16:nested-composite-drops-parent-transform";
+const SIG_BOTH: &str = "C16:composite-2x2-transposed+nested-composite-drops-parent-transform";
+
+// ------------------------------------------------------------------------------------ case model
+
+#[derive(Clone, Debug)]
+pub struct ContourSpec {
+    /// (dx, dy, on) per point; deltas are relative to the previous point of the glyph
+    pub pts: Vec<(i16, i16, bool)>,
+    /// 0 as generated, 1 all on, 2 all off, 3 first off / last on, 4 first off / last off
+    pub pattern: u8,
+}
+
+#[derive(Clone, Debug)]
+pub struct SimpleSpec {
+    pub contours: Vec<ContourSpec>,
+    pub instructions: Vec<u8>,
+    pub overlap: bool,
+    /// absolute coordinate limit (4000 or 16000)
+    pub limit: i16,
+}
+
+#[derive(Clone, Debug)]
+pub struct ComponentSpec {
+    /// which earlier glyph: mapped monotonically onto 0..own index
+    pub target: u32,
+    /// use the immediately preceding glyph instead (builds chains)
+    pub chain: bool,
+    pub anchor: Anchor,
+    pub transform: Transform,
+    pub flags: u16,
+}
+
+#[derive(Clone, Debug)]
+pub struct CompositeSpec {
+    pub components: Vec<ComponentSpec>,
+    pub instructions: Option<Vec<u8>>,
+}
+
+#[derive(Clone, Debug)]
+pub enum Special {
+    None,
+    /// last composite refers to itself
+    SelfCycle,
+    /// the last two composites refer to each other
+    MutualCycle,
+    /// a component names a glyph id beyond the table
+    DanglingIndex,
+}
+
+#[derive(Clone, Debug)]
+pub struct Case {
+    pub simples: Vec<SimpleSpec>,
+    /// position (mapped onto 0..=simples.len()) of an empty glyph among the simple glyphs
+    pub empty_at: Option<u32>,
+    pub composites: Vec<CompositeSpec>,
+    pub special: Special,
+    pub enc: Encoding,
+    pub layout: Layout,
+    pub reverse_visit: bool,
+}
+
+// ------------------------------------------------------------------------------------ strategies
+
+fn delta() -> impl Strategy<Value = i16> {
+    prop_oneof![
+        3 => Just(0i16),
+        4 => -255i16..=255,
+        2 => proptest::sample::select(vec![1i16, -1, 255, -255, 256, -256, 127, 128, -128, 254, -254]),
+        2 => -2000i16..=2000,
+        1 => -8000i16..=8000,
+        1 => -32000i16..=32000,
+    ]
+}
+
+/// 0 general, 1 small positive steps, 2 mostly zero, 3 large only
+fn styled_delta(style: u8) -> BoxedStrategy<i16> {
+    match style {
+        1 => (1i16..=255).boxed(),
+        2 => prop_oneof![4 => Just(0i16), 1 => -3i16..=3].boxed(),
+        3 => prop_oneof![(256i16..=6000), (-6000i16..=-256)].boxed(),
+        _ => delta().boxed(),
+    }
+}
+
+fn contour(style: u8) -> impl Strategy<Value = ContourSpec> {
+    let len = prop_oneof![2 => Just(1usize), 2 => Just(2usize), 3 => 3usize..=5, 3 => 6usize..=10];
+    let pat = prop_oneof![4 => Just(0u8), 1 => Just(1u8), 2 => Just(2u8), 2 => Just(3u8), 2 => Just(4u8)];
+    (len, pat, any::<bool>()).prop_flat_map(move |(n, pattern, skew_on)| {
+        let on = if skew_on { proptest::bool::weighted(0.7).boxed() } else { any::<bool>().boxed() };
+        (
+            proptest::collection::vec((styled_delta(style), styled_delta(style), on), n),
+            Just(pattern),
+        )
+            .prop_map(|(pts, pattern)| ContourSpec { pts, pattern })
+    })
+}
+
+fn simple() -> impl Strategy<Value = SimpleSpec> {
+    let style = prop_oneof![5 => Just(0u8), 2 => Just(1u8), 2 => Just(2u8), 1 => Just(3u8)];
+    let n_contours = prop_oneof![1 => Just(0usize), 6 => 1usize..=2, 4 => 3usize..=4];
+    (style, n_contours).prop_flat_map(|(style, n)| {
+        (
+            proptest::collection::vec(contour(style), n),
+            proptest::collection::vec(any::<u8>(), 0..5),
+            proptest::bool::weighted(0.2),
+            prop_oneof![4 => Just(4000i16), 1 => Just(16000i16)],
+        )
+            .prop_map(|(contours, instructions, overlap, limit)| SimpleSpec {
+                contours,
+                instructions,
+                overlap,
+                limit,
+            })
+    })
+}
+
+fn f2dot14() -> impl Strategy<Value = i16> {
+    prop_oneof![
+        3 => proptest::sample::select(vec![0x4000i16, -0x4000, 0x2000, -0x2000, 0x7FFF, -0x8000, 0, 1, -1, 0x6000, 0x1000, 0x4001, 0x3FFF]),
+        3 => -0x4000i16..=0x4000,
+        2 => any::<i16>(),
+    ]
+}
+
+fn transform() -> impl Strategy<Value = Transform> {
+    prop_oneof![
+        3 => Just(Transform::None),
+        2 => f2dot14().prop_map(Transform::Scale),
+        2 => (f2dot14(), f2dot14()).prop_map(|(x, y)| Transform::XY(x, y)),
+        5 => (f2dot14(), f2dot14(), f2dot14(), f2dot14()).prop_map(|(a, b, c, d)| Transform::Matrix(a, b, c, d)),
+        1 => (f2dot14(), f2dot14(), f2dot14()).prop_map(|(a, b, d)| Transform::Matrix(a, b, b, d)),
+        1 => (f2dot14(), -0x4000i16..=0x4000).prop_map(|(a, b)| Transform::Matrix(a, b, -b, a)),
+    ]
+}
+
+fn anchor() -> impl Strategy<Value = Anchor> {
+    let off = || {
+        prop_oneof![
+            2 => Just(0i16),
+            4 => -128i16..=127,
+            2 => proptest::sample::select(vec![-128i16, 127, -129, 128, 255, 256, -256, i16::MAX, i16::MIN]),
+            3 => -4000i16..=4000,
+        ]
+    };
+    prop_oneof![
+        60 => (off(), off()).prop_map(|(x, y)| Anchor::Offset(x, y)),
+        1 => (0u16..12, 0u16..12).prop_map(|(p, q)| Anchor::Points(p, q)),
+        1 => (any::<u16>(), any::<u16>()).prop_map(|(p, q)| Anchor::Points(p, q)),
+    ]
+}
+
+fn component_flags() -> impl Strategy<Value = u16> {
+    (any::<u8>(), 0u8..32).prop_map(|(bits, rare)| {
+        let mut f = 0u16;
+        if bits & 1 != 0 {
+            f |= flag::ROUND_XY_TO_GRID;
+        }
+        if bits & 2 != 0 {
+            f |= flag::USE_MY_METRICS;
+        }
+        if bits & 4 != 0 {
+            f |= flag::OVERLAP_COMPOUND;
+        }
+        if bits & 8 != 0 {
+            f |= flag::UNSCALED_COMPONENT_OFFSET;
+        }
+        // SCALED_COMPONENT_OFFSET: rare (excluded from comparison when it could matter)
+        if rare == 0 {
+            f |= flag::SCALED_COMPONENT_OFFSET;
+        }
+        f
+    })
+}
+
+fn component() -> impl Strategy<Value = ComponentSpec> {
+    (any::<u32>(), proptest::bool::weighted(0.45), anchor(), transform(), component_flags()).prop_map(
+        |(target, chain, anchor, transform, flags)| ComponentSpec {
+            target,
+            chain,
+            anchor,
+            transform,
+            flags,
+        },
+    )
+}
+
+fn composite() -> impl Strategy<Value = CompositeSpec> {
+    (
+        proptest::collection::vec(component(), 1..=4),
+        proptest::option::weighted(0.3, proptest::collection::vec(any::<u8>(), 0..5)),
+    )
+        .prop_map(|(components, instructions)| CompositeSpec { components, instructions })
+}
+
+fn form() -> impl Strategy<Value = Form> {
+    prop_oneof![2 => Just(Form::Compact), 1 => Just(Form::Long), 3 => Just(Form::Mixed)]
+}
+
+fn encoding() -> impl Strategy<Value = Encoding> {
+    (form(), form(), form(), form(), any::<u64>()).prop_map(|(coords, repeats, args, transforms, seed)| Encoding {
+        coords,
+        repeats,
+        args,
+        transforms,
+        seed,
+    })
+}
+
+fn layout() -> impl Strategy<Value = Layout> {
+    (any::<bool>(), 0usize..3, 0usize..3, 0usize..3, any::<u64>()).prop_map(|(long_loca, a, extra, lead, seed)| {
+        let align = if long_loca { [1, 2, 4][a] } else { [2, 2, 4][a] };
+        Layout {
+            long_loca,
+            align,
+            max_extra_units: extra,
+            leading: lead * 4,
+            seed,
+        }
+    })
+}
+
+fn special() -> impl Strategy<Value = Special> {
+    prop_oneof![
+        40 => Just(Special::None),
+        1 => Just(Special::SelfCycle),
+        1 => Just(Special::MutualCycle),
+        1 => Just(Special::DanglingIndex),
+    ]
+}
+
+pub fn case_strategy() -> impl Strategy<Value = Case> {
+    (
+        proptest::collection::vec(simple(), 1..=4),
+        proptest::option::weighted(0.3, any::<u32>()),
+        proptest::collection::vec(composite(), 0..=8),
+        special(),
+        encoding(),
+        layout(),
+        any::<bool>(),
+    )
+        .prop_map(|(simples, empty_at, composites, special, enc, layout, reverse_visit)| Case {
+            simples,
+            empty_at,
+            composites,
+            special,
+            enc,
+            layout,
+            reverse_visit,
+        })
+}
+
+/// Chains: one simple leaf, then `depth` composites each referring to the previous glyph
+/// (first component) plus optional side components; exercises the depth limit on both sides.
+pub fn chain_strategy() -> impl Strategy<Value = Case> {
+    (
+        simple(),
+        proptest::collection::vec(composite(), 4..=9),
+        prop_oneof![12 => Just(Special::None), 1 => Just(Special::SelfCycle), 1 => Just(Special::MutualCycle)],
+        encoding(),
+        layout(),
+        any::<bool>(),
+    )
+        .prop_map(|(leaf, mut composites, special, enc, layout, reverse_visit)| {
+            for c in composites.iter_mut() {
+                c.components[0].chain = true;
+                // the chain link itself is always compared: plain offset, comparable flags
+                if let Anchor::Points(p, q) = c.components[0].anchor {
+                    c.components[0].anchor = Anchor::Offset((p % 300) as i16 - 150, (q % 300) as i16 - 150);
+                }
+                c.components[0].flags &= !flag::SCALED_COMPONENT_OFFSET;
+                c.components.truncate(2);
+            }
+            Case {
+                simples: vec![leaf],
+                empty_at: None,
+                composites,
+                special,
+                enc,
+                layout,
+                reverse_visit,
+            }
+        })
+}
+
+// ------------------------------------------------------------------------------------ model building
+
+fn build_simple(s: &SimpleSpec) -> SimpleGlyph {
+    let lim = s.limit as i32;
+    let (mut x, mut y) = (0i32, 0i32);
+    let mut contours = Vec::new();
+    for c in &s.contours {
+        let n = c.pts.len();
+        let mut pts: Vec<Pt> = Vec::with_capacity(n);
+        for (i, (dx, dy, on)) in c.pts.iter().enumerate() {
+            x = (x + *dx as i32).clamp(-lim, lim);
+            y = (y + *dy as i32).clamp(-lim, lim);
+            let on = match c.pattern {
+                1 => true,
+                2 => false,
+                3 => {
+                    if i == n - 1 {
+                        true
+                    } else if i == 0 {
+                        false
+                    } else {
+                        *on
+                    }
+                }
+                4 => {
+                    if i == 0 || i == n - 1 {
+                        false
+                    } else {
+                        *on
+                    }
+                }
+                _ => *on,
+            };
+            pts.push((x as i16, y as i16, on));
+        }
+        contours.push(pts);
+    }
+    SimpleGlyph {
+        bbox: None,
+        contours,
+        instructions: s.instructions.clone(),
+        overlap_simple: s.overlap,
+    }
+}
+
+/// The glyph list of a case (the model everything is compared with).
+pub fn build_glyphs(case: &Case) -> Vec<Glyph> {
+    let mut glyphs: Vec<Glyph> = case.simples.iter().map(|s| Glyph::Simple(build_simple(s))).collect();
+    if let Some(r) = case.empty_at {
+        let at = pick(glyphs.len() + 1, r);
+        glyphs.insert(at, Glyph::Empty);
+    }
+    for c in &case.composites {
+        let own = glyphs.len();
+        let components = c
+            .components
+            .iter()
+            .map(|k| Component {
+                glyph: if k.chain { own - 1 } else { pick(own, k.target) } as u16,
+                anchor: k.anchor,
+                transform: k.transform,
+                flags: k.flags,
+            })
+            .collect();
+        glyphs.push(Glyph::Composite(CompositeGlyph {
+            bbox: None,
+            components,
+            instructions: c.instructions.clone(),
+        }));
+    }
+    let n = glyphs.len();
+    let n_comp = case.composites.len();
+    match case.special {
+        Special::None => {}
+        Special::SelfCycle => {
+            if n_comp >= 1 {
+                if let Glyph::Composite(c) = &mut glyphs[n - 1] {
+                    let last = c.components.len() - 1;
+                    c.components[last].glyph = (n - 1) as u16;
+                }
+            }
+        }
+        Special::MutualCycle => {
+            if n_comp >= 2 {
+                if let Glyph::Composite(c) = &mut glyphs[n - 2] {
+                    c.components[0].glyph = (n - 1) as u16;
+                }
+                if let Glyph::Composite(c) = &mut glyphs[n - 1] {
+                    c.components[0].glyph = (n - 2) as u16;
+                }
+            }
+        }
+        Special::DanglingIndex => {
+            if n_comp >= 1 {
+                if let Glyph::Composite(c) = &mut glyphs[n - 1] {
+                    c.components[0].glyph = (n + 3) as u16;
+                }
+            }
+        }
+    }
+    glyphs
+}
+
+// ------------------------------------------------------------------------------------ observation
+
+#[derive(Default)]
+struct Recorder {
+    cmds: Vec<Cmd>,
+}
+
+impl OutlineSink for Recorder {
+    fn move_to(&mut self, to: Vector2F) {
+        self.cmds.push(Cmd::MoveTo(to.x() as f64, to.y() as f64));
+    }
+    fn line_to(&mut self, to: Vector2F) {
+        self.cmds.push(Cmd::LineTo(to.x() as f64, to.y() as f64));
+    }
+    fn quadratic_curve_to(&mut self, ctrl: Vector2F, to: Vector2F) {
+        self.cmds.push(Cmd::QuadTo(ctrl.x() as f64, ctrl.y() as f64, to.x() as f64, to.y() as f64));
+    }
+    fn cubic_curve_to(&mut self, ctrl: LineSegment2F, to: Vector2F) {
+        self.cmds.push(Cmd::CubicTo(
+            ctrl.from_x() as f64,
+            ctrl.from_y() as f64,
+            ctrl.to_x() as f64,
+            ctrl.to_y() as f64,
+            to.x() as f64,
+            to.y() as f64,
+        ));
+    }
+    fn close(&mut self) {
+        self.cmds.push(Cmd::Close);
+    }
+}
+
+fn fail(sig: &str, msg: String) -> Fail {
+    Fail::new(format!("C16:{}", sig), msg)
+}
+
+/// absolute + relative tolerance for a single-precision implementation (see `Outline`)
+fn tol_for(mag: f64) -> f64 {
+    1e-3 + 8e-6 * mag
+}
+
+fn agrees(exp: &Outline, got: &[Cmd]) -> bool {
+    first_difference(&exp.cmds, got, |i| tol_for(exp.magnitude.get(i).copied().unwrap_or(0.0))).is_none()
+}
+
+/// Features of a glyph's component tree that matter for exclusion / attribution.
+#[derive(Default, Debug)]
+struct TreeInfo {
+    point_matched: bool,
+    scaled_offset: bool,
+    /// a 2×2 transform whose off-diagonal entries differ
+    asym_2x2: bool,
+    /// a composite used as a component with a non-identity placement
+    nested_with_placement: bool,
+    transforms: BTreeSet<&'static str>,
+}
+
+fn tree_info(glyphs: &[Glyph], gid: u16, budget: u32, info: &mut TreeInfo) {
+    if budget == 0 {
+        return;
+    }
+    if let Some(Glyph::Composite(c)) = glyphs.get(gid as usize) {
+        for k in &c.components {
+            match k.anchor {
+                Anchor::Points(..) => info.point_matched = true,
+                Anchor::Offset(dx, dy) => {
+                    if k.scaled_offset_flag() && !k.transform.is_identity() && (dx != 0 || dy != 0) {
+                        info.scaled_offset = true;
+                    }
+                    let placed = dx != 0 || dy != 0 || !k.transform.is_identity();
+                    if placed && matches!(glyphs.get(k.glyph as usize), Some(Glyph::Composite(_))) {
+                        info.nested_with_placement = true;
+                    }
+                }
+            }
+            if let Transform::Matrix(_, b, c2, _) = k.transform {
+                if b != c2 {
+                    info.asym_2x2 = true;
+                    info.transforms.insert("transform:2x2-asymmetric");
+                } else {
+                    info.transforms.insert("transform:2x2-symmetric");
+                }
+            } else {
+                info.transforms.insert(match k.transform {
+                    Transform::None => "transform:none",
+                    Transform::Scale(_) => "transform:scale",
+                    _ => "transform:xy",
+                });
+            }
+            tree_info(glyphs, k.glyph, budget - 1, info);
+        }
+    }
+}
+
+enum Verdict {
+    Pass,
+    /// no comparison possible by design (excluded class); label for counting
+    Excluded(&'static str),
+    /// explained exactly by a known defect model
+    Attributed(Fail),
+}
+
+fn first_diff_text(exp: &Outline, got: &[Cmd]) -> String {
+    match first_difference(&exp.cmds, got, |i| tol_for(exp.magnitude.get(i).copied().unwrap_or(0.0))) {
+        Some(i) => format!(
+            "first difference at command {}: expected {} got {}",
+            i,
+            exp.cmds.get(i).map_or("<end>".to_string(), |c| render(&[*c])),
+            got.get(i).map_or("<end>".to_string(), |c| render(&[*c]))
+        ),
+        None => "no difference".to_string(),
+    }
+}
+
+fn describe_glyph(glyphs: &[Glyph], gid: u16) -> String {
+    let s = format!("{:?}", glyphs.get(gid as usize));
+    crate::engine::util::truncate(&s, 900)
+}
+
+/// Sub-path by sub-path geometric equivalence (cyclic segment sequences), each sub-path with
+/// the tolerance of its own magnitude.
+fn equivalent_subpaths(exp: &Outline, got: &[Cmd]) -> bool {
+    fn split(cmds: &[Cmd]) -> Vec<(usize, usize)> {
+        let mut v = Vec::new();
+        let mut start = 0;
+        for (i, c) in cmds.iter().enumerate() {
+            if matches!(c, Cmd::MoveTo(..)) && i > start {
+                v.push((start, i));
+                start = i;
+            }
+        }
+        if start < cmds.len() {
+            v.push((start, cmds.len()));
+        }
+        v
+    }
+    let (se, sg) = (split(&exp.cmds), split(got));
+    if se.len() != sg.len() {
+        return false;
+    }
+    se.iter().zip(sg.iter()).all(|(&(a, b), &(c, d))| {
+        let mag = exp.magnitude[a..b].iter().cloned().fold(0.0, f64::max);
+        same_geometry(&exp.cmds[a..b], &got[c..d], tol_for(mag))
+    })
+}
+
+/// Compare what allsorts delivered for glyph `gid` with the model.
+fn judge(glyphs: &[Glyph], gid: u16, observed: &Result<Vec<Cmd>, String>) -> Result<Verdict, Fail> {
+    let opts = PathOptions {
+        max_depth: Some(DEPTH_LIMIT),
+        ..PathOptions::default()
+    };
+    let mut info = TreeInfo::default();
+    tree_info(glyphs, gid, 12, &mut info);
+    let exp = match outline_of(glyphs, gid, &opts) {
+        Ok(o) => o,
+        Err(PathError::DepthExceeded) => {
+            return match observed {
+                Err(_) => Ok(Verdict::Pass),
+                Ok(cmds) => Err(fail(
+                    "depth-limit-not-enforced",
+                    format!(
+                        "glyph {} nests deeper than {} levels (or is cyclic) but visit returned Ok with {} commands",
+                        gid,
+                        DEPTH_LIMIT,
+                        cmds.len()
+                    ),
+                )),
+            };
+        }
+        Err(PathError::MissingGlyph(_)) => return Ok(Verdict::Excluded("excluded:dangling-component-index")),
+        Err(PathError::PointMatching) => return Ok(Verdict::Excluded("excluded:point-matched")),
+    };
+    if info.scaled_offset {
+        return Ok(Verdict::Excluded("excluded:scaled-component-offset"));
+    }
+    let got = match observed {
+        Ok(c) => c,
+        Err(e) => {
+            return Err(fail(
+                "visit-error",
+                format!("glyph {}: visit failed with {} on a valid glyph; model {}", gid, e, describe_glyph(glyphs, gid)),
+            ))
+        }
+    };
+    if agrees(&exp, got) {
+        return Ok(Verdict::Pass);
+    }
+    let is_composite = matches!(glyphs.get(gid as usize), Some(Glyph::Composite(_)));
+    // defect models
+    if is_composite {
+        let devs = [
+            (info.asym_2x2, Deviations { transposed_2x2: true, drop_parent_transform: false }, SIG_TRANSPOSED),
+            (info.nested_with_placement, Deviations { transposed_2x2: false, drop_parent_transform: true }, SIG_DROPPED),
+            (
+                info.asym_2x2 && info.nested_with_placement,
+                Deviations { transposed_2x2: true, drop_parent_transform: true },
+                SIG_BOTH,
+            ),
+        ];
+        for (applicable, deviations, sig) in devs {
+            if !applicable {
+                continue;
+            }
+            if let Ok(alt) = outline_of(glyphs, gid, &PathOptions { deviations, ..opts }) {
+                if agrees(&alt, got) {
+                    return Ok(Verdict::Attributed(Fail::new(
+                        sig,
+                        format!(
+                            "glyph {}: outline equals the defect model {:?}, not the specification; {}; expected {} got {}; model {}",
+                            gid,
+                            deviations,
+                            first_diff_text(&exp, got),
+                            crate::engine::util::truncate(&render(&exp.cmds), 300),
+                            crate::engine::util::truncate(&render(got), 300),
+                            describe_glyph(glyphs, gid)
+                        ),
+                    )));
+                }
+            }
+        }
+    }
+    // same closed sub-paths, different (but on-curve) start point: the statement only asks
+    // for a sub-path that starts on the curve and visits the points in order
+    if equivalent_subpaths(&exp, got) {
+        return Ok(Verdict::Excluded("pass:equivalent-path-other-start"));
+    }
+    let moves = |c: &[Cmd]| c.iter().filter(|x| matches!(x, Cmd::MoveTo(..))).count();
+    let kinds_equal = exp.cmds.len() == got.len() && exp.cmds.iter().zip(got.iter()).all(|(a, b)| a.name() == b.name());
+    let what = if moves(&exp.cmds) != moves(got) {
+        "contour-count"
+    } else if !kinds_equal {
+        "commands"
+    } else {
+        "coordinates"
+    };
+    Err(fail(
+        &format!("{}:{}", if is_composite { "composite" } else { "simple" }, what),
+        format!(
+            "glyph {}: {}; expected {} got {}; model {}",
+            gid,
+            first_diff_text(&exp, got),
+            crate::engine::util::truncate(&render(&exp.cmds), 400),
+            crate::engine::util::truncate(&render(got), 400),
+            describe_glyph(glyphs, gid)
+        ),
+    ))
+}
+
+fn allsorts_visit_all(glyf_bytes: &[u8], loca_bytes: &[u8], long: bool, n: usize, order: &[u16]) -> Result<Vec<(u16, Result<Vec<Cmd>, String>)>, Fail> {
+    let fmt = if long { IndexToLocFormat::Long } else { IndexToLocFormat::Short };
+    let loca = ReadScope::new(loca_bytes)
+        .read_dep::<LocaTable<'_>>((n, fmt))
+        .map_err(|e| fail("loca-parse", format!("valid loca table rejected: {:?}", e)))?;
+    let mut glyf = ReadScope::new(glyf_bytes)
+        .read_dep::<GlyfTable<'_>>(&loca)
+        .map_err(|e| fail("glyf-parse", format!("valid glyf table rejected: {:?}", e)))?;
+    if usize::from(glyf.num_glyphs()) != n {
+        return Err(fail("glyph-count", format!("num_glyphs {} for {} loca spans", glyf.num_glyphs(), n)));
+    }
+    let mut out = Vec::with_capacity(order.len());
+    for &gid in order {
+        let mut sink = Recorder::default();
+        let r = glyf.visit(gid, &mut sink);
+        out.push((gid, r.map(|_| sink.cmds).map_err(|e| format!("{:?}", e))));
+    }
+    Ok(out)
+}
+
+fn contour_classes(c: &[Pt], classes: &mut BTreeSet<String>) {
+    let n = c.len();
+    if n == 0 {
+        return;
+    }
+    let (first, last) = (c[0].2, c[n - 1].2);
+    classes.insert(
+        match (first, last) {
+            (true, _) => "start:first-on",
+            (false, true) => "start:first-off-last-on",
+            (false, false) => "start:first-off-last-off",
+        }
+        .to_string(),
+    );
+    if n == 1 {
+        classes.insert(if first { "contour:single-on" } else { "contour:single-off" }.to_string());
+    }
+    if n == 2 {
+        classes.insert("contour:two-points".to_string());
+    }
+    if c.iter().all(|p| !p.2) {
+        classes.insert("contour:all-off".to_string());
+    }
+    if (0..n.saturating_sub(1)).any(|i| !c[i].2 && !c[i + 1].2) {
+        classes.insert("contour:consecutive-off".to_string());
+    }
+    if !first && !last && n >= 2 {
+        classes.insert("contour:closing-edge-midpoint".to_string());
+    }
+    if first && !last {
+        classes.insert("contour:closing-quad-to-first".to_string());
+    }
+}
+
+fn stats_classes(st: &SimpleStats, classes: &mut BTreeSet<String>) {
+    let mut c = |b: bool, s: &str| {
+        if b {
+            classes.insert(s.to_string());
+        }
+    };
+    c(st.repeat_runs > 0, "enc:repeat-flag");
+    c(st.repeat_spans_contours, "enc:repeat-spans-contours");
+    c(st.repeat_count_zero > 0, "enc:repeat-count-0");
+    c(st.short_positive > 0, "enc:short+");
+    c(st.short_negative > 0, "enc:short-");
+    c(st.short_zero > 0, "enc:short-zero");
+    c(st.same_as_previous > 0, "enc:same-as-previous");
+    c(st.long_nonzero > 0, "enc:long");
+    c(st.long_redundant > 0, "enc:long-redundant");
+}
+
+/// Encode the model, let allsorts parse and visit every glyph, compare with the model.
+pub fn check_glyphs(
+    glyphs: &[Glyph],
+    enc: &Encoding,
+    layout: &Layout,
+    reverse_visit: bool,
+    rec: &mut Rec,
+) -> CaseResult {
+    let n = glyphs.len();
+    let mut classes: BTreeSet<String> = BTreeSet::new();
+    // ---- my encoder
+    let mut records = Vec::with_capacity(n);
+    for (i, g) in glyphs.iter().enumerate() {
+        let e = enc.for_item(i);
+        records.push(match g {
+            Glyph::Empty => Vec::new(),
+            Glyph::Simple(s) => {
+                let (b, st) = encode_simple(s, &e).expect("generator keeps deltas within 16 bits");
+                stats_classes(&st, &mut classes);
+                b
+            }
+            Glyph::Composite(c) => encode_composite(c, &e).expect("generator gives every composite a component"),
+        });
+    }
+    let (glyf_bytes, loca_bytes) = build_glyf_loca(&records, layout).expect("tables stay small");
+    rec.hash_bytes(&glyf_bytes);
+    rec.hash_bytes(&loca_bytes);
+    rec.artefact("glyf", &glyf_bytes);
+    rec.artefact("loca", &loca_bytes);
+    rec.artefact("long_loca", &[layout.long_loca as u8]);
+
+    // ---- self-check of the harness: my reader on my bytes reproduces the model's outlines
+    let reread = read_glyf_table(&glyf_bytes, &loca_bytes, layout.long_loca, n)
+        .unwrap_or_else(|e| panic!("refmodel::glyf cannot read fontgen::glyf output: {}", e));
+    let lenient = PathOptions {
+        max_depth: Some(DEPTH_LIMIT),
+        point_matching: PointMatching::ZeroOffset,
+        ..PathOptions::default()
+    };
+    for gid in 0..n as u16 {
+        let a = outline_of(glyphs, gid, &lenient);
+        let b = outline_of(&reread, gid, &lenient);
+        assert!(
+            a == b,
+            "encoder/reader self-check failed for glyph {}: model {:?} reread {:?}",
+            gid,
+            glyphs[gid as usize],
+            reread[gid as usize]
+        );
+    }
+
+    // ---- allsorts
+    let mut order: Vec<u16> = (0..n as u16).collect();
+    if reverse_visit {
+        order.reverse();
+    }
+    let observed = allsorts_visit_all(&glyf_bytes, &loca_bytes, layout.long_loca, n, &order)?;
+
+    let mut attributed: Option<Fail> = None;
+    let mut nontrivial = false;
+    let mut compared = 0u64;
+    for (gid, obs) in &observed {
+        match judge(glyphs, *gid, obs)? {
+            Verdict::Pass => {
+                compared += 1;
+                match &glyphs[*gid as usize] {
+                    Glyph::Simple(s) => {
+                        if s.points().any(|p| !p.2) {
+                            nontrivial = true;
+                        }
+                        for c in &s.contours {
+                            contour_classes(c, &mut classes);
+                        }
+                        if s.contours.is_empty() {
+                            classes.insert("glyph:zero-contours".into());
+                        }
+                    }
+                    Glyph::Composite(_) => {
+                        nontrivial = true;
+                        let mut info = TreeInfo::default();
+                        tree_info(glyphs, *gid, 12, &mut info);
+                        for t in &info.transforms {
+                            classes.insert(t.to_string());
+                        }
+                        if info.nested_with_placement {
+                            classes.insert("composite:nested-with-placement".into());
+                        }
+                        match composite_depth(glyphs, *gid, 12) {
+                            Some(d) if d <= DEPTH_LIMIT => {
+                                classes.insert(format!("depth:{}", d));
+                            }
+                            Some(_) => {
+                                classes.insert("depth>limit:error".into());
+                            }
+                            None => {
+                                classes.insert("depth:cycle-or-dangling:error".into());
+                            }
+                        }
+                    }
+                    Glyph::Empty => {
+                        classes.insert("glyph:empty".into());
+                    }
+                }
+            }
+            Verdict::Excluded(label) => {
+                classes.insert(label.to_string());
+            }
+            Verdict::Attributed(f) => {
+                if attributed.is_none() {
+                    attributed = Some(f);
+                }
+            }
+        }
+    }
+    if let Some(f) = attributed {
+        // every other glyph of the case has been checked; report the known-defect class last
+        return Err(f);
+    }
+    classes.insert(if layout.long_loca { "loca:long" } else { "loca:short" }.to_string());
+    for c in classes.iter().take(60) {
+        rec.class(c);
+    }
+    rec.evaluations(compared.saturating_sub(1));
+    rec.set_nontrivial(nontrivial);
+    rec.sample(|| {
+        let g = glyphs
+            .iter()
+            .map(|g| match g {
+                Glyph::Empty => "empty".to_string(),
+                Glyph::Simple(s) => format!(
+                    "simple[{}]",
+                    s.contours
+                        .iter()
+                        .map(|c| c.iter().map(|p| if p.2 { '1' } else { '0' }).collect::<String>())
+                        .collect::<Vec<_>>()
+                        .join("|")
+                ),
+                Glyph::Composite(c) => format!(
+                    "comp[{}]",
+                    c.components
+                        .iter()
+                        .map(|k| format!("g{}:{}", k.glyph, k.transform.kind()))
+                        .collect::<Vec<_>>()
+                        .join(",")
+                ),
+            })
+            .collect::<Vec<_>>()
+            .join(" ");
+        format!("{} glyphs, {} glyf bytes, loca {}: {}", n, glyf_bytes.len(), if layout.long_loca { "long" } else { "short" }, g)
+    });
+    Ok(())
+}
+
+pub fn check_case(case: &Case, rec: &mut Rec) -> CaseResult {
+    let glyphs = build_glyphs(case);
+    check_glyphs(&glyphs, &case.enc, &case.layout, case.reverse_visit, rec)
+}
+
+// ------------------------------------------------------------------------------------ sweeps
+
+/// Exhaustive on/off patterns for contours of 1..=8 points, on a fixed polygon, as the
+/// second of two contours (so the repeat-flag and delta state crosses a contour boundary),
+/// in every encoding form.
+fn sweep_item(i: u64, rec: &mut Rec) -> CaseResult {
+    // item i: n = number of points (1..=8), pattern bits
+    let mut n = 1u32;
+    let mut rest = i;
+    while rest >= (1u64 << n) {
+        rest -= 1u64 << n;
+        n += 1;
+    }
+    let bits = rest as u32;
+    let poly: [(i16, i16); 8] = [(0, 0), (100, 0), (200, 40), (260, 300), (200, 600), (100, 640), (0, 600), (-60, 300)];
+    let contour: Vec<Pt> = (0..n as usize).map(|k| (poly[k].0, poly[k].1, bits >> k & 1 == 1)).collect();
+    let lead: Vec<Pt> = vec![(-500, -500, true), (-400, -500, true), (-400, -400, true)];
+    let simple = SimpleGlyph::from_contours(vec![lead, contour]);
+    let glyphs = vec![
+        Glyph::Simple(simple),
+        Glyph::Composite(CompositeGlyph {
+            bbox: None,
+            components: vec![Component::new(0, 10, -20).with_transform(Transform::XY(0x2000, -0x4000))],
+            instructions: None,
+        }),
+    ];
+    for (k, enc) in [Encoding::compact(), Encoding::long(), Encoding::mixed(i), Encoding::mixed(i ^ 0xabcdef)]
+        .iter()
+        .enumerate()
+    {
+        let layout = if k % 2 == 0 { Layout::short() } else { Layout::long() };
+        let mut sub = Rec::for_fuzz();
+        if let Err(f) = check_glyphs(&glyphs, enc, &layout, false, &mut sub) {
+            rec.artefacts = sub.artefacts;
+            return Err(f);
+        }
+    }
+    rec.evaluations(7);
+    rec.set_nontrivial(true);
+    rec.hash_u64(i);
+    rec.class(&format!("sweep:points={}", n));
+    rec.sample(|| format!("{} points, on/off bits {:0width$b} (lsb = first point), as 2nd contour and as scaled component, 4 encodings", n, bits, width = n as usize));
+    Ok(())
+}
+
+// ------------------------------------------------------------------------------------ fixtures
+
+fn be16(b: &[u8], at: usize) -> Option<u16> {
+    Some(u16::from_be_bytes([*b.get(at)?, *b.get(at + 1)?]))
+}
+
+/// My reader + reference semantics against allsorts on an intact fixture font.
+fn fixture_item(rel: &str, rec: &mut Rec) -> CaseResult {
+    let data = match fixtures::read(rel) {
+        Some(d) => d,
+        None => return Ok(()),
+    };
+    let (head, maxp, loca, glyf) = match (
+        find_table(&data, b"head"),
+        find_table(&data, b"maxp"),
+        find_table(&data, b"loca"),
+        find_table(&data, b"glyf"),
+    ) {
+        (Some(h), Some(m), Some(l), Some(g)) => (h, m, l, g),
+        _ => {
+            rec.class("fixture:no-glyf");
+            return Ok(());
+        }
+    };
+    let (long, n) = match (be16(head, 50), be16(maxp, 4)) {
+        (Some(f), Some(n)) => (f == 1, n as usize),
+        _ => return Ok(()),
+    };
+    let glyphs = match read_glyf_table(glyf, loca, long, n) {
+        Ok(g) => g,
+        Err(e) => {
+            // my reader is the stricter one; an unreadable fixture is simply not usable here
+            rec.class("fixture:unreadable-by-reference");
+            rec.sample(|| format!("{}: {}", rel, e));
+            return Ok(());
+        }
+    };
+    let order: Vec<u16> = (0..n as u16).collect();
+    let observed = allsorts_visit_all(glyf, loca, long, n, &order)?;
+    let mut attributed: Option<Fail> = None;
+    let mut compared = 0u64;
+    let mut composites = 0u64;
+    let mut excluded = 0u64;
+    let (mut asym, mut nested) = (0u64, 0u64);
+    let (mut first_asym, mut first_nested): (Option<u16>, Option<u16>) = (None, None);
+    // debugging aid: C16_DUMP_FIXTURE=<file name>:<gid or *> C16_DUMP_OUT=<path> writes the
+    // reference path of one glyph (or one line "gid<TAB>path" per glyph) of a fixture to a file
+    // (used once to cross-check refmodel::glyf against FreeType, see REPORT)
+    if let (Ok(spec), Ok(path)) = (std::env::var("C16_DUMP_FIXTURE"), std::env::var("C16_DUMP_OUT")) {
+        if let Some((f, g)) = spec.rsplit_once(':') {
+            if rel.ends_with(f) {
+                let opts = PathOptions { max_depth: Some(DEPTH_LIMIT), ..PathOptions::default() };
+                let mut text = String::new();
+                for (gid, obs) in &observed {
+                    let reference = outline_of(&glyphs, *gid, &opts).map(|o| render(&o.cmds)).unwrap_or_else(|e| format!("{:?}", e));
+                    if g == "*" {
+                        text.push_str(&format!("{}\t{}\n", gid, reference));
+                    } else if g.parse::<u16>().ok() == Some(*gid) {
+                        text.push_str(&format!(
+                            "{} glyph {}\nmodel {:?}\nreference {}\nobserved  {}\n",
+                            rel,
+                            gid,
+                            glyphs[*gid as usize],
+                            reference,
+                            obs.as_ref().map(|c| render(c)).unwrap_or_else(|e| e.clone())
+                        ));
+                    }
+                }
+                let _ = std::fs::write(path, text);
+            }
+        }
+    }
+    for (gid, obs) in &observed {
+        match judge(&glyphs, *gid, obs) {
+            Ok(Verdict::Pass) => {
+                compared += 1;
+                if glyphs[*gid as usize].is_composite() {
+                    composites += 1;
+                    let mut info = TreeInfo::default();
+                    tree_info(&glyphs, *gid, 12, &mut info);
+                    if info.asym_2x2 {
+                        asym += 1;
+                        first_asym.get_or_insert(*gid);
+                    }
+                    if info.nested_with_placement {
+                        nested += 1;
+                        first_nested.get_or_insert(*gid);
+                    }
+                }
+            }
+            Ok(Verdict::Excluded(_)) => excluded += 1,
+            Ok(Verdict::Attributed(mut f)) => {
+                if attributed.is_none() {
+                    f.msg = format!("{}: {}", rel, f.msg);
+                    attributed = Some(f);
+                }
+            }
+            Err(mut f) => {
+                f.sig = format!("{}[fixture]", f.sig);
+                f.msg = format!("{}: {}", rel, f.msg);
+                return Err(f);
+            }
+        }
+    }
+    if let Some(f) = attributed {
+        return Err(f);
+    }
+    rec.evaluations(compared.saturating_sub(1));
+    rec.set_nontrivial(compared > 0);
+    rec.hash_bytes(rel.as_bytes());
+    rec.class("fixture:compared");
+    rec.class_if(composites > 0, "fixture:with-composites");
+    rec.class_if(excluded > 0, "fixture:with-excluded-glyphs");
+    let name = rel.rsplit('/').next().unwrap_or(rel);
+    rec.class_if(asym > 0, &format!("fixture:asymmetric-2x2:{}({} glyphs, first gid {})", name, asym, first_asym.unwrap_or(0)));
+    rec.class_if(nested > 0, &format!("fixture:nested-with-placement:{}({} glyphs, first gid {})", name, nested, first_nested.unwrap_or(0)));
+    rec.sample(|| format!("{}: {} glyphs compared ({} composite), {} excluded", rel, compared, composites, excluded));
+    Ok(())
+}
 
 impl Property for C16 {
     fn id(&self) -> &'static str {
         "C16"
     }
     fn rule(&self) -> String {
-        "not implemented".to_string()
+        "proptest generates glyf tables of 1-4 simple glyphs (0-4 contours of 1-10 points, every on/off pattern class, deltas biased to 0, ±1..255, ±256 and large; \
+         coordinates within ±4000 or ±16000), an optional empty glyph and 0-8 composites (1-4 components; byte/word offsets; none/scale/xy/2x2 transforms incl. asymmetric, symmetric and rotation-like 2x2; \
+         components referring to earlier glyphs with a bias to chains so that nesting reaches 0-8+; self/mutual cycles and dangling indices as rare specials); a second section builds chains of 4-9 composites around the depth limit. \
+         fontgen::glyf encodes with per-item legal freedom (same/short±/long deltas, repeat runs incl. split runs and count 0, byte/word args, widened transforms, short/long loca, alignment 1/2/4, padding, leading gap). \
+         allsorts parses LocaTable/GlyfTable and OutlineBuilder::visit feeds a recording sink for every glyph; each command list is compared with refmodel::glyf::outline_of(model) \
+         (tolerance 1e-3 + 8e-6*magnitude for f32 arithmetic); depth > 6 and cycles must give Err. An exhaustive sweep covers all 510 on/off patterns of contours with 1-8 points in 4 encodings; \
+         all .ttf fixtures are compared glyph by glyph through my independent reader. Non-trivial = a compared glyph with an off-curve point or a composite; distinct by hash of the glyf+loca bytes."
+            .to_string()
     }
-    fn run(&self, _ctx: &mut Ctx) {}
+    fn assumptions(&self) -> Vec<String> {
+        vec![
+            "2x2 component transforms follow the OpenType glyf text: x' = xscale*x + scale10*y + dx, y' = scale01*x + yscale*y + dy, values in file order xscale, scale01, scale10, yscale (same as FreeType/HarfBuzz/fontTools); offsets are not scaled by default".into(),
+            "the transform of a nested composite applies to the whole child outline (composition through every level)".into(),
+            "the sub-path start follows the FreeType convention (first on-curve, else last, else midpoint); a different on-curve start with the same cyclic segment sequence is accepted and counted".into(),
+            "the nesting limit asserted is allsorts' own documented constant 6 (requested glyph = depth 0)".into(),
+            "point-matched components, SCALED_COMPONENT_OFFSET with a non-identity transform and a non-zero offset, and dangling component indices are generated but only checked for crash freedom".into(),
+            "f32 rounding of an implementation stays within 1e-3 + 8e-6 x (sum of |matrix|*|coordinate| + |offset| through all levels)".into(),
+        ]
+    }
+    fn run(&self, ctx: &mut Ctx) {
+        let n = ctx.cases(150_000, 1_500_000);
+        ctx.section("tables", n, case_strategy(), |c, rec| check_case(c, rec));
+        let n = ctx.cases(30_000, 300_000);
+        ctx.section("chains", n, chain_strategy(), |c, rec| check_case(c, rec));
+        ctx.enumerate("contour-sweep", 510, true, |i, rec| sweep_item(i, rec));
+        let fonts = fixtures::list("fonts", &["ttf"], 700_000);
+        let total = fonts.len() as u64;
+        ctx.enumerate("fixtures", total, true, |i, rec| fixture_item(&fonts[i as usize], rec));
+    }
 }
